@@ -17,6 +17,8 @@ def load_specs():
             specs[s.fid] = s
         for l in getattr(m, 'LEMMAS', []):
             specs[l.fid] = l
+    from specs import schema
+    specs['@class_invariants'] = getattr(schema, 'CLASS_INVARIANTS', {})
     return specs
 
 
@@ -27,6 +29,8 @@ def main(argv):
     want = [a for a in argv if not a.startswith('-')]
     verbose = '-v' in argv
     for fid, spec in specs.items():
+        if fid.startswith('@'):
+            continue
         if want and not any(w in fid for w in want):
             continue
         if getattr(spec, 'trusted', False):
